@@ -15,6 +15,7 @@ PLAN = [
     ("enc_driver", "plain", ("CDNS_VERIF_ENC_BUFFER=12",)),
     ("dec_driver", "plain", ()),
     ("dec_driver", "plain", ("CDNS_VERIF_DEC_BUFFER=5",)),
+    ("exp_driver", "plain", ()),
 ]
 
 
